@@ -23,6 +23,8 @@ import (
 //   append(s, ...)    ->  append(simrt.AP(s, site).([]T), ...)   (write to s[len:cap])
 //   sync   mu.Lock()    ->  simrt.MuLock(&(mu), site)           (Unlock, RLock, RUnlock)
 //          once.Do(f)   ->  simrt.OnceDo(&(once), f, site)
+//   bulk   copy(d, s)   ->  copy(simrt.WS(d, site).(T), simrt.RS(s, site).(T))
+//          sort.Slice(x, less) -> sort.Slice(simrt.WS(x, site).(T), less)   (SliceStable alike)
 //          pool.Get()   ->  simrt.PoolGet(&(pool), site);  pool.Put(v) -> simrt.PoolPut(&(pool), site, v)
 
 var sizes = types.SizesFor("gc", "amd64")
@@ -216,6 +218,26 @@ func (c *w3ctx) wrapMapRead(m ast.Expr) {
 	c.seq++
 	c.fc.insert(c.off(m.Pos()), "simrt.RM(", -c.seq)
 	c.fc.insert(c.off(m.End()), fmt.Sprintf(", %d).(%s)", id, ts), c.seq)
+}
+
+// wrapSlice wraps a slice-typed expression in simrt.WS / simrt.RS (write / read of all
+// of its elements).
+func (c *w3ctx) wrapSlice(e ast.Expr, fn, kind string) {
+	t := c.typeOf(e)
+	if t == nil {
+		return
+	}
+	if _, isSlice := t.Underlying().(*types.Slice); !isSlice {
+		return
+	}
+	ts, ok := c.spellable(t)
+	if !ok {
+		return
+	}
+	id := c.site(kind, e)
+	c.seq++
+	c.fc.insert(c.off(e.Pos()), "simrt."+fn+"(", -c.seq)
+	c.fc.insert(c.off(e.End()), fmt.Sprintf(", %d).(%s)", id, ts), c.seq)
 }
 
 const (
@@ -424,6 +446,18 @@ func (c *w3ctx) call(x *ast.CallExpr) {
 			}
 		}
 	}
+	// sort.Slice / sort.SliceStable / sort.Sort swap elements behind the weaver's back
+	// (through reflect): the call counts as a write of every element of its first argument
+	if se, ok := x.Fun.(*ast.SelectorExpr); ok {
+		if pid, ok := se.X.(*ast.Ident); ok {
+			if pn, ok := c.w.info.Uses[pid].(*types.PkgName); ok && pn.Imported().Path() == "sort" &&
+				(se.Sel.Name == "Slice" || se.Sel.Name == "SliceStable") && len(x.Args) == 2 {
+				c.exprs(x.Args)
+				c.wrapSlice(x.Args[0], "WS", "slicewrite")
+				return
+			}
+		}
+	}
 	if id, ok := x.Fun.(*ast.Ident); ok {
 		if _, isBuiltin := c.w.info.Uses[id].(*types.Builtin); isBuiltin {
 			switch id.Name {
@@ -449,6 +483,13 @@ func (c *w3ctx) call(x *ast.CallExpr) {
 							c.fc.insert(c.off(x.Args[0].End()), fmt.Sprintf(", %d).(%s)", id, ts), c.seq)
 						}
 					}
+				}
+			case "copy":
+				c.exprs(x.Args)
+				// copy writes the elements of its first argument and reads those of its second
+				if len(x.Args) == 2 {
+					c.wrapSlice(x.Args[0], "WS", "slicewrite")
+					c.wrapSlice(x.Args[1], "RS", "sliceread")
 				}
 			case "new", "make":
 				if len(x.Args) > 1 {
